@@ -284,6 +284,9 @@ fn c03(cx: &mut Ctx) {
             cx.sink.count("reached_by_null_move");
         }
         emit_pos(cx, b);
+        if cx.rng.chance(1, 4) {
+            emit_edits(cx, b, 1);
+        }
     });
 }
 
@@ -707,7 +710,19 @@ fn c08(cx: &mut Ctx) {
                 }
                 None => break,
             }
+            if cx.rng.chance(1, 3) {
+                emit_edits(cx, &b, 2);
+            }
         }
+    }
+}
+
+/// positions obtained through the deprecated mutators (`set_piece`, `clear_square`, castle-rights
+/// setters): EDIT lines
+fn emit_edits(cx: &mut Ctx, b: &Board, n: usize) {
+    for cmd in ops::edit_cmds(b, &mut cx.rng, n) {
+        cx.sink.count("edits");
+        cx.sink.emit(ops::edit(b, &cmd));
     }
 }
 
@@ -1386,6 +1401,16 @@ fn c16(cx: &mut Ctx) {
         }
     }
     t(cx, "edges".to_string());
+    t(cx, "sqdefault".to_string());
+    for s in 0..64 {
+        t(cx, format!("rsq2cr {}", s));
+        t(cx, format!("toint {}", s));
+    }
+    for _ in 0..64 {
+        let v = cx.rng.next_u64();
+        let sh = (cx.rng.next_u64() % 64) as usize;
+        t(cx, format!("tosize {:x} {}", v, sh));
+    }
     for i in 0..=20 {
         t(cx, format!("fileidx {}", i));
         t(cx, format!("rankidx {}", i));
